@@ -154,8 +154,15 @@ func SwitchPendingTrial(p *sut.Proc, frame time.Duration, how, what string) (out
 			return
 		}
 	}
+	// (the gauges are decremented by the decorators after the handler has
+	// returned: a bounded wait, decided on the values)
 	ms1, err := p.Metrics()
 	must(err)
+	for k := 0; k < 300 && (ms1["session_count"] != ms0["session_count"]+2 || ms1["ws_connected_clients"] != ms0["ws_connected_clients"]+3); k++ {
+		time.Sleep(10 * time.Millisecond)
+		ms1, err = p.Metrics()
+		must(err)
+	}
 	if ms1["session_count"] != ms0["session_count"]+2 || ms1["ws_connected_clients"] != ms0["ws_connected_clients"]+3 {
 		out.Findings = append(out.Findings, sf([]string{"C07", "C08"}, "gauges/not-restored", "session gauge %v -> %v (want +2), connected clients %v -> %v (want +3)", ms0["session_count"], ms1["session_count"], ms0["ws_connected_clients"], ms1["ws_connected_clients"]))
 	}
